@@ -397,7 +397,7 @@ func (w *c18World) sanity(c *report.Ctx) {
 func c18() *report.Check {
 	return &report.Check{
 		Level: "exploration",
-		Rule: "every request of the generated space (7 methods x paths from every OpenAPI template by parameter substitution and spelling mutation x 3 bodies, built by net/http's request parser; plus URL objects with RawPath != Path) served by the real router with writes off and on, twice each, and under every iteration order of every kproapi map range met; after each request the canonical requests of its template are served again on the same servers (two-request histories) and the decision compared with the fresh servers' one; " +
+		Rule: "every request of the generated space (7 methods x paths from every OpenAPI template by parameter substitution and spelling mutation x 3 bodies, built by net/http's request parser; plus URL objects with RawPath != Path) served by the real router with writes off and on, twice each, and under every iteration order of every kproapi map range met; after each request the canonical requests of its template are served again on the same servers (two-request histories) and the decision compared with the fresh servers' one; two requests in flight with writes off: every pair of {canonical request of each operation, one undefined-method request per template} under every interleaving of the two handler threads with at most 2 (thorough 3) preemptions at statement granularity of keyper/kproapi and keyper/kprapi (cooperative scheduler over sources instrumented with yield points); " +
 			"oracles: writes off => no receive on trigger/shutdown channel, no DB change, no handler of an operation not marked x-read-only reached; read-only operations answer identically in both modes; same verdict under every map order and on repetition; classes = status + who answered + effects, per mode",
 		Assumptions: []string{
 			"the request reaches the router as net/http's ReadRequest parses it (the server's own parser); request lines it refuses never reach the router and are counted as a class",
@@ -405,6 +405,7 @@ func c18() *report.Check {
 			"map iteration order in keyper/kproapi is owned through a source rewrite (cmd/rewrite) and every permutation is explored; map ranges inside third-party packages (kin-openapi Paths.Find, gorilla/mux) keep Go's runtime order and are covered only by serving every request twice",
 			"the set of operations and their x-read-only marks are read from the embedded document (kproapi.GetSwagger), independently of the middleware's own reading",
 			"PostgreSQL semantics as implemented by minipg; single-session serial execution",
+			"concurrency: scheduling points are the statements of keyper/kproapi and keyper/kprapi (including the generated server wrapper); third-party and standard-library code runs atomically between two points; sync.Mutex/RWMutex/Once of those two packages are modelled by a scheduler-aware shim; memory-model effects below statement granularity are outside",
 			"/api.json and /metrics are not operations of the OpenAPI document and are outside the statement",
 		},
 		Shards: func(bool) int { return 16 },
@@ -412,7 +413,7 @@ func c18() *report.Check {
 			if t {
 				return 8 * time.Minute
 			}
-			return 45 * time.Second
+			return 150 * time.Second
 		},
 		Trivial: func(cl string) bool { return false },
 		Run: func(c *report.Ctx) {
@@ -558,6 +559,8 @@ func c18() *report.Check {
 					}
 				}
 			}
+			// two requests in flight (cooperative scheduler over the instrumented sources)
+			w.concurrent(c)
 			c.Stats.Count("document_variant_requests", nVar)
 			c.Stats.Count("requests", nReq)
 			c.Stats.Count("two_request_histories_request_then_canonical_requests_of_its_template", nHist)
@@ -583,6 +586,11 @@ func c18() *report.Check {
 				return ""
 			}
 			maporder.Chooser = nil
+			if rp.Oracle == "concurrent" {
+				cc := &report.Ctx{Property: c.Property, Stats: &report.Stats{}, NShards: 1}
+				w.sanity(cc)
+				return w.concReplay(rp)
+			}
 			if rp.Oracle == "history" {
 				cc := &report.Ctx{Property: c.Property, Stats: &report.Stats{}, NShards: 1}
 				w.sanity(cc)
